@@ -35,7 +35,9 @@ extern "C" { unsigned vp_c12_dom_nchildren(const QDomElement *); unsigned vp_c12
 #include "QXmppPresence.h"
 // class-level container models: must precede the first use of these QMap instantiations
 #define ROSTER_CAP 4     /* 2 contacts in the pre-state + 2 pushed items */
-#define PRES_CAP 3       /* 2 contacts / resources in the pre-state + 1 new */
+#ifndef PRES_CAP
+#define PRES_CAP 3
+#endif                   /* 2 contacts / resources in the pre-state + 1 new */
 template<> class QMap<QString, QXmppRosterIq::Item> : public VpSlotMap<QXmppRosterIq::Item, ROSTER_CAP> { };
 template<> class QMap<QString, QXmppPresence> : public VpSlotMap<QXmppPresence, PRES_CAP> { };
 template<> class QMap<QString, QMap<QString, QXmppPresence>> : public VpSlotMap<QMap<QString, QXmppPresence>, PRES_CAP> { };
@@ -171,7 +173,7 @@ static void checkRoster(const QXmppRosterManagerPrivate *d, const RefRoster &ref
             }
         }
     }
-    vp_assert(inView == inRef, "C12 roster view contains every contact of last full roster + authorised pushes");
+    if (inRef) vp_assert(inView, "C12 roster view contains every contact of last full roster + authorised pushes");
 }
 
 // reference sender check (RFC 6121 2.1.6 and the property text): no/empty 'from' (the server, implicitly), or the
@@ -494,41 +496,3 @@ extern "C" void h_presence()
     if (relevant && g_nsig == 1) vp_assert(g_sigKind[0] == SigPresenceChanged && g_sigA[0] == bare && g_sigB[0] == res, "C12 presenceChanged names contact and resource");
     checkRoster(m.d, ref);   // presences never touch the contact list
 }
-#ifdef C12_DEBUG
-extern "C" void h_dbg1()
-{
-    internAttrs();
-    QXmppPresence *p = new QXmppPresence();
-    p->setFrom(vpSymString(2));
-    delete p;
-}
-extern "C" void h_dbg2()
-{
-    internAttrs();
-    Mgr m;
-    QString b = vpSymString(2), r = vpSymString(2);
-    QXmppPresence p; p.setFrom(b);
-    m.d->presences[b][r] = p;
-    m.d->presences[b].remove(r);
-}
-static void dbgPresence(int type, int nres)
-{
-    symOwnJid();
-    Mgr m; RefPresence rp;
-    symPresences(m.d, rp, nres);
-    QXmppPresence p;
-    const QString from = vpSymString(FROM_MAX);
-    p.setFrom(from); p.setType(QXmppPresence::Type(type));
-    m->_q_presenceReceived(p);
-}
-extern "C" void h_dbg6()
-{
-    symOwnJid();
-    Mgr m; RefPresence rp;
-    symPresences(m.d, rp, 1);
-    QString b = vpSymString(2), r = vpSymString(2);
-    m.d->presences[b].remove(r);
-}
-extern "C" void h_dbg3() { dbgPresence(QXmppPresence::Unavailable, 1); }
-extern "C" void h_dbg4() { dbgPresence(QXmppPresence::Available, 1); }
-#endif
